@@ -6,6 +6,8 @@ from . import conn_gen
 
 ID = "C01"
 ENGINE = "conn"
+# companion pass: adversarial SASL payloads against the real sasl.c/scram.c (engine sasl, C07's generator)
+ALSO = [("c07", 0)]
 VARIANT = "std"
 STATEFUL = True
 LEVEL = "proof"
